@@ -1,0 +1,208 @@
+//go:build verif
+
+package xlist
+
+// Contracts for the deductive verifier in /verif (property C06). This file is only part of the
+// build under the tag `verif`; the `//@` lines are the contracts, the Go functions at the bottom
+// are ghost clients that the verifier checks modularly against the contracts above them.
+
+//@ ghost List.seq seq[*Node[T]]
+//@ ghost List.n int
+//@ ghost List.idx gmap[*Node[T]]int
+
+//@ pred in(l, x) = 0 <= l.idx[x] && l.idx[x] < l.n && l.seq[l.idx[x]] == x
+
+//@ pred wf(l) = l.size == l.n && l.n >= 0
+//@   && (l.n == 0 ==> l.front == nil && l.back == nil)
+//@   && (l.n > 0 ==> l.front == l.seq[0] && l.back == l.seq[l.n-1] && l.seq[0].prev == nil && l.seq[l.n-1].next == nil)
+//@   && (forall i int {l.seq[i]} :: 0 <= i && i < l.n ==> l.seq[i] != nil && alloc(l.seq[i]) && l.idx[l.seq[i]] == i)
+//@   && (forall i int {l.seq[i]} :: 0 <= i && i < l.n-1 ==> l.seq[i].next == l.seq[i+1])
+//@   && (forall i int {l.seq[i]} :: 0 < i && i < l.n ==> l.seq[i].prev == l.seq[i-1])
+
+//@ pred sameSeq(l) = l.n == old(l.n) && (forall i int {l.seq[i]} :: 0 <= i && i < l.n ==> l.seq[i] == old(l.seq)[i])
+
+//@ func List.Len
+//@   props C06
+//@   requires wf(l)
+//@   ensures result == l.n
+
+//@ func List.Front
+//@   props C06
+//@   requires wf(l)
+//@   ensures (l.n == 0 ==> result == nil) && (l.n > 0 ==> result == l.seq[0])
+
+//@ func List.Back
+//@   props C06
+//@   requires wf(l)
+//@   ensures (l.n == 0 ==> result == nil) && (l.n > 0 ==> result == l.seq[l.n-1])
+
+//@ func Node.Next
+//@   props C06
+//@   ensures result == n.next
+
+//@ func Node.Prev
+//@   props C06
+//@   ensures result == n.prev
+
+//@ func List.Clear
+//@   props C06
+//@   requires wf(l)
+//@   modifies l.front, l.back, l.size, l.n
+//@   ghost l.n := 0
+//@   ensures wf(l) && l.n == 0
+
+//@ func List.PushFront
+//@   props C06
+//@   requires wf(l)
+//@   modifies l.front, l.back, l.size, l.front.prev, l.seq, l.n, l.idx
+//@   ghost l.n := old(l.n) + 1
+//@   ghost l.seq := lambda i int :: i == 0 ? result : old(l.seq)[i-1]
+//@   ghost l.idx := lambda x *Node[T] :: x == result ? 0 : old(l.idx)[x] + 1
+//@   ensures wf(l) && fresh(result) && result.Value == value && l.n == old(l.n) + 1
+//@   ensures l.seq[0] == result && (forall i int {l.seq[i]} :: 1 <= i && i < l.n ==> l.seq[i] == old(l.seq)[i-1])
+
+//@ func List.PushBack
+//@   props C06
+//@   requires wf(l)
+//@   modifies l.front, l.back, l.size, l.back.next, l.seq, l.n, l.idx
+//@   ghost l.n := old(l.n) + 1
+//@   ghost l.seq := lambda i int :: i == old(l.n) ? result : old(l.seq)[i]
+//@   ghost l.idx := lambda x *Node[T] :: x == result ? old(l.n) : old(l.idx)[x]
+//@   ensures wf(l) && fresh(result) && result.Value == value && l.n == old(l.n) + 1
+//@   ensures l.seq[l.n-1] == result && (forall i int {l.seq[i]} :: 0 <= i && i < l.n-1 ==> l.seq[i] == old(l.seq)[i])
+
+//@ func List.InsertBefore
+//@   props C06
+//@   requires wf(l) && in(l, mark)
+//@   modifies l.front, l.size, mark.prev, mark.prev.next, l.seq, l.n, l.idx
+//@   ghost l.n := old(l.n) + 1
+//@   ghost l.seq := lambda i int :: i < old(l.idx)[mark] ? old(l.seq)[i] : (i == old(l.idx)[mark] ? result : old(l.seq)[i-1])
+//@   ghost l.idx := lambda x *Node[T] :: x == result ? old(l.idx)[mark] : (old(l.idx)[x] >= old(l.idx)[mark] ? old(l.idx)[x] + 1 : old(l.idx)[x])
+//@   ensures wf(l) && fresh(result) && result.Value == value && l.n == old(l.n) + 1
+//@   ensures l.seq[old(l.idx)[mark]] == result
+//@   ensures forall i int {l.seq[i]} :: 0 <= i && i < old(l.idx)[mark] ==> l.seq[i] == old(l.seq)[i]
+//@   ensures forall i int {l.seq[i]} :: old(l.idx)[mark] < i && i < l.n ==> l.seq[i] == old(l.seq)[i-1]
+
+//@ func List.InsertAfter
+//@   props C06
+//@   requires wf(l) && in(l, mark)
+//@   modifies l.back, l.size, mark.next, mark.next.prev, l.seq, l.n, l.idx
+//@   ghost l.n := old(l.n) + 1
+//@   ghost l.seq := lambda i int :: i <= old(l.idx)[mark] ? old(l.seq)[i] : (i == old(l.idx)[mark] + 1 ? result : old(l.seq)[i-1])
+//@   ghost l.idx := lambda x *Node[T] :: x == result ? old(l.idx)[mark] + 1 : (old(l.idx)[x] > old(l.idx)[mark] ? old(l.idx)[x] + 1 : old(l.idx)[x])
+//@   ensures wf(l) && fresh(result) && result.Value == value && l.n == old(l.n) + 1
+//@   ensures l.seq[old(l.idx)[mark] + 1] == result
+//@   ensures forall i int {l.seq[i]} :: 0 <= i && i <= old(l.idx)[mark] ==> l.seq[i] == old(l.seq)[i]
+//@   ensures forall i int {l.seq[i]} :: old(l.idx)[mark] + 1 < i && i < l.n ==> l.seq[i] == old(l.seq)[i-1]
+
+//@ func List.Remove
+//@   props C06
+//@   requires wf(l) && in(l, node)
+//@   modifies l.front, l.back, l.size, node.prev, node.next, node.prev.next, node.next.prev, l.seq, l.n, l.idx
+//@   ghost l.n := old(l.n) - 1
+//@   ghost l.seq := lambda i int :: i < old(l.idx)[node] ? old(l.seq)[i] : old(l.seq)[i+1]
+//@   ghost l.idx := lambda x *Node[T] :: x == node ? 0 - 1 : (old(l.idx)[x] > old(l.idx)[node] ? old(l.idx)[x] - 1 : old(l.idx)[x])
+//@   ensures wf(l) && l.n == old(l.n) - 1 && node.prev == nil && node.next == nil && !in(l, node)
+//@   ensures forall i int {l.seq[i]} :: 0 <= i && i < old(l.idx)[node] ==> l.seq[i] == old(l.seq)[i]
+//@   ensures forall i int {l.seq[i]} :: old(l.idx)[node] <= i && i < l.n ==> l.seq[i] == old(l.seq)[i+1]
+
+//@ pred movedBefore(l, node, mark) = let a = old(l.idx)[node] in let b = old(l.idx)[mark] in
+//@   (forall i int {l.seq[i]} :: 0 <= i && i < l.n ==> l.seq[i] ==
+//@      (a < b ? (i < a ? old(l.seq)[i] : (i < b-1 ? old(l.seq)[i+1] : (i == b-1 ? node : old(l.seq)[i])))
+//@             : (i < b ? old(l.seq)[i] : (i == b ? node : (i <= a ? old(l.seq)[i-1] : old(l.seq)[i])))))
+
+//@ func List.MoveBefore
+//@   props C06
+//@   requires wf(l) && in(l, node) && in(l, mark)
+//@   modifies l.front, l.back, node.prev, node.next, mark.prev, node.prev.next, node.next.prev, mark.prev.next, l.seq, l.idx
+//@   ghost l.seq := lambda i int :: node == mark ? old(l.seq)[i] : (old(l.idx)[node] < old(l.idx)[mark]
+//@        ? (i < old(l.idx)[node] ? old(l.seq)[i] : (i < old(l.idx)[mark]-1 ? old(l.seq)[i+1] : (i == old(l.idx)[mark]-1 ? node : old(l.seq)[i])))
+//@        : (i < old(l.idx)[mark] ? old(l.seq)[i] : (i == old(l.idx)[mark] ? node : (i <= old(l.idx)[node] ? old(l.seq)[i-1] : old(l.seq)[i]))))
+//@   ghost l.idx := lambda x *Node[T] :: node == mark ? old(l.idx)[x] : (old(l.idx)[node] < old(l.idx)[mark]
+//@        ? (x == node ? old(l.idx)[mark]-1 : (old(l.idx)[node] < old(l.idx)[x] && old(l.idx)[x] < old(l.idx)[mark] ? old(l.idx)[x]-1 : old(l.idx)[x]))
+//@        : (x == node ? old(l.idx)[mark] : (old(l.idx)[mark] <= old(l.idx)[x] && old(l.idx)[x] < old(l.idx)[node] ? old(l.idx)[x]+1 : old(l.idx)[x])))
+//@   ensures wf(l) && l.n == old(l.n) && in(l, node) && in(l, mark)
+//@   ensures node == mark ==> sameSeq(l)
+//@   ensures node != mark ==> movedBefore(l, node, mark)
+//@   ensures node != mark ==> mark.prev == node && node.next == mark
+
+//@ pred movedAfter(l, node, mark) = let a = old(l.idx)[node] in let b = old(l.idx)[mark] in
+//@   (forall i int {l.seq[i]} :: 0 <= i && i < l.n ==> l.seq[i] ==
+//@      (a < b ? (i < a ? old(l.seq)[i] : (i < b ? old(l.seq)[i+1] : (i == b ? node : old(l.seq)[i])))
+//@             : (i <= b ? old(l.seq)[i] : (i == b+1 ? node : (i <= a ? old(l.seq)[i-1] : old(l.seq)[i])))))
+
+//@ func List.MoveAfter
+//@   props C06
+//@   requires wf(l) && in(l, node) && in(l, mark)
+//@   modifies l.front, l.back, node.prev, node.next, mark.next, node.prev.next, node.next.prev, mark.next.prev, l.seq, l.idx
+//@   ghost l.seq := lambda i int :: node == mark ? old(l.seq)[i] : (old(l.idx)[node] < old(l.idx)[mark]
+//@        ? (i < old(l.idx)[node] ? old(l.seq)[i] : (i < old(l.idx)[mark] ? old(l.seq)[i+1] : (i == old(l.idx)[mark] ? node : old(l.seq)[i])))
+//@        : (i <= old(l.idx)[mark] ? old(l.seq)[i] : (i == old(l.idx)[mark]+1 ? node : (i <= old(l.idx)[node] ? old(l.seq)[i-1] : old(l.seq)[i]))))
+//@   ghost l.idx := lambda x *Node[T] :: node == mark ? old(l.idx)[x] : (old(l.idx)[node] < old(l.idx)[mark]
+//@        ? (x == node ? old(l.idx)[mark] : (old(l.idx)[node] < old(l.idx)[x] && old(l.idx)[x] <= old(l.idx)[mark] ? old(l.idx)[x]-1 : old(l.idx)[x]))
+//@        : (x == node ? old(l.idx)[mark]+1 : (old(l.idx)[mark] < old(l.idx)[x] && old(l.idx)[x] < old(l.idx)[node] ? old(l.idx)[x]+1 : old(l.idx)[x])))
+//@   ensures wf(l) && l.n == old(l.n) && in(l, node) && in(l, mark)
+//@   ensures node == mark ==> sameSeq(l)
+//@   ensures node != mark ==> movedAfter(l, node, mark)
+//@   ensures node != mark ==> mark.next == node && node.prev == mark
+
+//@ func List.MoveToFront
+//@   props C06
+//@   requires wf(l) && in(l, node)
+//@   modifies l.front, l.back, node.prev, node.next, l.front.prev, node.prev.next, node.next.prev, l.seq, l.idx
+//@   ensures wf(l) && l.n == old(l.n) && l.seq[0] == node
+//@   ensures forall i int {l.seq[i]} :: 1 <= i && i <= old(l.idx)[node] ==> l.seq[i] == old(l.seq)[i-1]
+//@   ensures forall i int {l.seq[i]} :: old(l.idx)[node] < i && i < l.n ==> l.seq[i] == old(l.seq)[i]
+
+//@ func List.MoveToBack
+//@   props C06
+//@   requires wf(l) && in(l, node)
+//@   modifies l.front, l.back, node.prev, node.next, l.back.next, node.prev.next, node.next.prev, l.seq, l.idx
+//@   ensures wf(l) && l.n == old(l.n) && l.seq[l.n-1] == node
+//@   ensures forall i int {l.seq[i]} :: 0 <= i && i < old(l.idx)[node] ==> l.seq[i] == old(l.seq)[i]
+//@   ensures forall i int {l.seq[i]} :: old(l.idx)[node] <= i && i < l.n-1 ==> l.seq[i] == old(l.seq)[i+1]
+
+// ---- ghost clients: sentences of C06 derived from the contracts alone ----
+
+//@ func verifClientEmptyList
+//@   props C06
+//@   ensures true
+func verifClientEmptyList[T any](v T) {
+	// a zero List is a well-formed empty list; it can be re-grown after Clear
+	var l List[T]
+	p := &l
+	//@ assume p.n == 0
+	//@ assert wf(p)
+	a := p.PushBack(v)
+	//@ assert p.front == a && p.back == a && a.prev == nil && a.next == nil && p.size == 1
+	_ = a
+	p.Clear()
+	//@ assert p.size == 0 && p.front == nil
+	b := p.PushFront(v)
+	//@ assert p.front == b && p.back == b && b.prev == nil && b.next == nil
+	_ = b
+	return
+}
+
+//@ func verifClientWalk
+//@   props C06
+//@   requires l != nil && wf(l) && in(l, x) && in(l, y)
+//@   ensures true
+func verifClientWalk[T any](l *List[T], x, y *Node[T], v T) {
+	// the first node has no Prev, the last no Next, the two walks are mirror images
+	//@ assert l.front.prev == nil && l.back.next == nil
+	//@ assert l.idx[x] + 1 == l.idx[y] ==> x.next == y && y.prev == x
+	//@ assert x.next == nil ==> x == l.back
+	//@ assert x.prev == nil ==> x == l.front
+	n := l.InsertAfter(v, x)
+	//@ assert x.next == n && n.prev == x && n.Value == v
+	l.Remove(n)
+	//@ assert n.prev == nil && n.next == nil && l.n == old(l.n) && sameSeq(l)
+	l.MoveBefore(x, y)
+	//@ assert x != y ==> x.next == y && y.prev == x
+	l.MoveToBack(x)
+	//@ assert l.back == x && x.next == nil
+	l.MoveToFront(x)
+	//@ assert l.front == x && x.prev == nil
+	return
+}
